@@ -226,3 +226,58 @@ def zoned_clock(P):
         date = zc.get_current_date()
         return ok and daycal.days_of(date) == local // NPD and date.calendar is cal and stub.reads >= 6
     return h
+
+
+class _TickingClock:
+    """A clock that advances by `step` nanoseconds on every read (the FakeClock auto-advance model with an arbitrary step)."""
+
+    def __init__(self, t0, step):
+        self.t0, self.step = t0, step
+        self.reads = 0
+
+    def get_current_instant(self):
+        t = self.t0 + self.reads * self.step
+        self.reads += 1
+        return Instant._ctor(days=t // NPD, nano_of_day=t % NPD)
+
+
+@lemma({"d": int, "n": int, "step": int, "o": int}, params=["zoned", "offset", "local", "date", "time", "instant"], budget=120, per_path=30,
+       bounds="ZonedClock over a clock that advances by ANY step 0..2 days per read (auto-advance model), a fixed-offset zone (5 offsets in "
+              "+-18h) and the DayCalendar: each getter reads the wrapped clock exactly as one read of the model - its result is the rendering "
+              "of the value of ONE read (the first), and a following read sees the clock advanced by one step only")
+def zoned_clock_ticking(P):
+    from props import daycal
+    cal = daycal.host("Coptic")
+    offsets = [-64800, -3600, 0, 19800, 64800]
+    zones = [DateTimeZone.for_offset(Offset.from_seconds(s)) for s in offsets]
+
+    def h(d, n, step, o):
+        assume(max(Instant._MIN_DAYS, cal._min_days) + 4 <= d <= min(Instant._MAX_DAYS, cal._max_days) - 8)
+        assume(0 <= n < NPD)
+        assume(0 <= step <= 2 * NPD)
+        assume(0 <= o < len(offsets))
+        zone, off = zones[int(o)], offsets[int(o)]
+        t0 = d * NPD + n
+        clock = _TickingClock(t0, step)
+        zc = ZonedClock(clock, zone, cal)
+        local = t0 + off * 10 ** 9
+        if P == "zoned":
+            z = zc.get_current_zoned_date_time()
+            ok = daycal.days_of(z.date) == local // NPD and z.time_of_day.nanosecond_of_day == local % NPD and z.offset.seconds == off
+        elif P == "offset":
+            z = zc.get_current_offset_date_time()
+            ok = daycal.days_of(z.date) == local // NPD and z.time_of_day.nanosecond_of_day == local % NPD and z.offset.seconds == off
+        elif P == "local":
+            ldt = zc.get_current_local_date_time()
+            ok = daycal.days_of(ldt.date) == local // NPD and ldt.nanosecond_of_day == local % NPD
+        elif P == "date":
+            ok = daycal.days_of(zc.get_current_date()) == local // NPD
+        elif P == "time":
+            ok = zc.get_curent_time_of_day().nanosecond_of_day == local % NPD
+        else:
+            t = zc.get_current_instant()._time_since_epoch
+            ok = t._floor_days * NPD + t._nanosecond_of_floor_day == t0
+        # the getter consumed one read of the model: the next read is exactly one step later
+        nxt = clock.get_current_instant()._time_since_epoch
+        return ok and nxt._floor_days * NPD + nxt._nanosecond_of_floor_day == t0 + step
+    return h
